@@ -399,6 +399,10 @@ def c12(tier='quick', seed=0):
                   policy.RuleDefault('p:b', 'role:x and role:y', deprecated_rule=dep),
                   policy.RuleDefault('p:c', 'not role:z', deprecated_rule=dep2),
                   policy.RuleDefault('p:d', 'role:plain')]
+    # a default that refers to a file-defined helper rule (its decisions follow the helper's CURRENT definition)
+    with warnings.catch_warnings():
+        warnings.simplefilter('ignore')
+        shared.append(policy.RuleDefault('p:ref', 'rule:p:d or role:never'))
     before = [describe(d) for d in shared]
     acts = ['load', 'force', 'enforce', 'edit', 'editmain', 'emptymain']
     seqs = []
@@ -430,7 +434,8 @@ def c12(tier='quick', seed=0):
                     # the main file overrides a plain default and the deprecated name that p:a and p:b replace
                     sb.write('policy.yaml', {'p:d': 'role:file%d' % i, 'p:old': 'role:custom'})
                 conf = sb.conf(policy_file='policy.yaml', policy_dirs=['d1'], enforce_new_defaults=(i == 2))
-                e = policy.Enforcer(conf)
+                # enforcer 2 (same files as enforcer 0) runs in update mode: reloads merge into the store in place
+                e = policy.Enforcer(conf, overwrite=(i != 2))
                 for d in shared:
                     e.register_default(d)
                 es.append(e)
@@ -444,6 +449,8 @@ def c12(tier='quick', seed=0):
                     r = outcome(e.load_rules, True)
                 elif a == 'enforce':
                     r = outcome(e.enforce, 'p:a', {}, {'roles': ['member']})
+                    if r[0] == 'ret':
+                        r = outcome(e.enforce, 'p:ref', {}, {'roles': ['file0']})
                 elif a == 'emptymain':
                     sb.write('policy.yaml', rng.choice([None, {}]))
                     r = ('ret', None)
@@ -470,6 +477,27 @@ def c12(tier='quick', seed=0):
                     f.load_rules()
                     have = {n: (str(c), count_nodes(c)) for n, c in e.rules.items()}
                     want = {n: (str(c), count_nodes(c)) for n, c in f.rules.items()}
+                    if i == 2:
+                        # update mode accumulates: names (and overrides of deprecated names) that are no longer in any file
+                        # legitimately survive.  What must agree with a single load are the names the current files define
+                        # and the plain default that only refers to one of them
+                        keep = set(f.file_rules) | ({'p:ref'} if 'p:d' in f.file_rules else set())
+                        have = {n: v for n, v in have.items() if n in keep}
+                        want = {n: v for n, v in want.items() if n in keep}
+                    if have == want:
+                        # same rules: then also the same decisions (a stale reference resolution prints the same)
+                        for qn in sorted(want):
+                            for roles in ([], ['main%d' % k[0]], ['file0'], ['admin'], ['legacy'], ['custom']):
+                                d1 = outcome(e.enforce, qn, {}, {'roles': roles})
+                                d2 = outcome(f.enforce, qn, {}, {'roles': roles})
+                                if d1[:2] != d2[:2]:
+                                    bad = 'after %r enforcer %d decides %r for %s with roles %r, a single load decides %r' % (
+                                        seq, i, d1[:2], qn, roles, d2[:2])
+                                    break
+                            if bad:
+                                break
+                        if bad:
+                            break
                     if have != want:
                         diff = {n: (have.get(n), want.get(n)) for n in set(have) | set(want) if have.get(n) != want.get(n)}
                         bad = 'after %r enforcer %d differs from a single load (got, single load): %r' % (seq, i, diff)
@@ -497,7 +525,8 @@ def c11(tier='quick', seed=0):
                'enforce_new_defaults x new-name override absent/present x old-name override absent/arbitrary/alias x override in '
                'the main file, in a policy directory, or in a policy directory with no main file x two new policies sharing one '
                'predecessor x loaded fresh, after an earlier generation of the files that overrode both names, or with the old name still '
-               'registered as a policy of its own before its successor, or after enforce_new_defaults was flipped on a live enforcer '
+               'registered as a policy of its own before its successor, after the overrides were added to files the enforcer had already '
+               'loaded without them, or after enforce_new_defaults was flipped on a live enforcer '
                'whose new default is an or-expression; decisions on all subsets of '
                '{new, old, ovr, ovn}; complete for this space')
     R.d['exhaustive'] = True
@@ -505,7 +534,8 @@ def c11(tier='quick', seed=0):
     subsets = [list(c) for k in range(len(roles_all) + 1) for c in itertools.combinations(roles_all, k)]
     for renamed, same_str, flag, new_ovr, old_ovr, where, shared, hist in itertools.product(
             [True, False], [True, False], [True, False], [False, True], ['absent', 'arbitrary', 'alias'],
-            ['main', 'dir', 'dironly'], [False, True], ['fresh', 'overrides-removed', 'old-name-still-registered', 'flag-flipped']):
+            ['main', 'dir', 'dironly'], [False, True], ['fresh', 'overrides-removed', 'old-name-still-registered', 'flag-flipped',
+                                                        'overrides-added']):
         if not renamed and old_ovr != 'absent':
             continue        # same name: an old-name override is the new-name override
         if shared and not renamed:
@@ -553,6 +583,11 @@ def c11(tier='quick', seed=0):
                     if where == 'dir':
                         sb.write('policy.yaml', {})
                     sb.write('d1/o.yaml', c)
+            if hist == 'overrides-added':
+                # the enforcer has loaded and decided before the operator wrote any override
+                put({})
+                e.load_rules()
+                outcome(e.enforce, 'svc:new', {}, {'roles': []})
             if hist == 'overrides-removed':
                 # an earlier generation of the files overrode both names; the operator has since edited them: only
                 # the files as they are now may influence a decision
@@ -616,14 +651,14 @@ def c20(tier='quick', seed=0):
                'old or the new policy; one context switch per run')
     distinct = {}
     scenarios = ['main_only', 'main_with_dir', 'dir_edit', 'defaults_permissive_default', 'deprecated_defaults',
-                 'deprecated_override', 'empty_main_dir_edit']
+                 'deprecated_override', 'empty_main_dir_edit', 'update_mode_dir_edit']
     if tier == 'quick':
         pass
     for sc in scenarios:
         sb = Sandbox()
         try:
             sb.mkdir('d1')
-            dirs = ['d1'] if sc in ('main_with_dir', 'dir_edit', 'empty_main_dir_edit') else []
+            dirs = ['d1'] if sc in ('main_with_dir', 'dir_edit', 'empty_main_dir_edit', 'update_mode_dir_edit') else []
             defaults = []
             old_main = {'default': '', 'admin_api': 'role:admin', 'owner_api': 'role:owner'}
             new_main = {'default': '', 'admin_api': 'role:admin or role:root', 'owner_api': 'role:owner'}
@@ -650,6 +685,10 @@ def c20(tier='quick', seed=0):
                     defaults = [policy.RuleDefault('reg_api', 'role:reg', deprecated_rule=dep)]
                 old_main = {'old_api': 'role:owner', 'x': 'role:x'}
                 new_main = {'old_api': 'role:owner', 'x': 'role:x or role:root'}
+            if sc == 'update_mode_dir_edit':
+                # an enforcer built with overwrite=False merges reloads into the live store; a policy.d edit touches the
+                # directory file only, the main file is neither re-read nor re-applied
+                sb.write('d1/o.yaml', {'admin_api': 'role:dir_admin', 'other': 'role:o1'})
             if sc == 'empty_main_dir_edit':
                 # the main file defines no rule at all; the operator tightens a registered default in policy.d and then
                 # edits that directory file
@@ -663,7 +702,7 @@ def c20(tier='quick', seed=0):
                        for r in ([], ['admin'], ['root'], ['owner'], ['reg'], ['dir_admin'], ['oldrole'], ['x'])]
 
             def build():
-                e = policy.Enforcer(conf)
+                e = policy.Enforcer(conf, overwrite=(sc != 'update_mode_dir_edit'))
                 for d in defaults:
                     e.register_default(d)
                 return e
@@ -678,6 +717,8 @@ def c20(tier='quick', seed=0):
                     sb.write('d1/o.yaml', {'admin_api': 'role:dir_admin2'})
                 elif sc == 'empty_main_dir_edit':
                     sb.write('d1/o.yaml', {'reg_api': 'role:admin or role:root'})
+                elif sc == 'update_mode_dir_edit':
+                    sb.write('d1/o.yaml', {'admin_api': 'role:dir_admin', 'other': 'role:o2'})
                 else:
                     sb.write('policy.yaml', new_main)
             import oslo_policy
@@ -709,6 +750,8 @@ def c20(tier='quick', seed=0):
                     sb.write('d1/o.yaml', {'admin_api': 'role:dir_admin'})
                 elif sc == 'empty_main_dir_edit':
                     sb.write('d1/o.yaml', {'reg_api': 'role:admin'})
+                elif sc == 'update_mode_dir_edit':
+                    sb.write('d1/o.yaml', {'admin_api': 'role:dir_admin', 'other': 'role:o1'})
                 else:
                     sb.write('policy.yaml', old_main)
                 e = build()
